@@ -80,6 +80,19 @@ def generate(rng):
         scn.pop('tear', None)
         scn.pop('twin', None)
         scn['sws'] = None
+    ops = scn['ops']
+    if rng.random() < 0.12:
+        # the application prepares awaitables up front (a list of steps) and awaits them later, other operations in between:
+        # making the awaitable does nothing, the call happens when it is awaited
+        aw = [i for i, o in enumerate(ops) if o['op'] == 'expect' and o.get('async') and i > 0 and 'cancel_after' not in o]
+        prep = {}
+        for i in aw:
+            if rng.random() < 0.6:
+                prep[str(i)] = rng.randrange(0, i)
+        if prep:
+            scn['prepare'] = prep
+            # (timeout and search window are bound when the awaitable is made: no re-tuning in such histories)
+            scn['ops'] = [o if o['op'] != 'setattr' else {'op': 'gap', 'dt': 1} for o in ops]
     return scn
 
 
@@ -105,18 +118,39 @@ def run(scn, clauses=None):
         loop = aioloop.SimLoop()
         loop.set_exception_handler(lambda lp, ctx: None)
 
-        async def acall(k, op):
+        prepared = {}
+
+        def make_awaitable(op):
             api = op.get('api', 'expect')
             to = op.get('to', -1)
             sws = op.get('sws', -1)
             exact = api == 'expect_exact'
             pl = r.build_plist(op['pats'], exact)
+            if exact:
+                coro = child.expect_exact(pl, timeout=to, searchwindowsize=sws, async_=True)
+            elif api == 'expect_list':
+                coro = child.expect_list(pl, timeout=to, searchwindowsize=sws, async_=True)
+            else:
+                coro = child.expect(pl, timeout=to, searchwindowsize=sws, async_=True)
+            return coro, pl
+
+        async def acall(k, op):
+            api = op.get('api', 'expect')
+            to = op.get('to', -1)
+            sws = op.get('sws', -1)
+            exact = api == 'expect_exact'
+            pre = prepared.pop(k, None)
+            pl = pre[1] if pre is not None else r.build_plist(op['pats'], exact)
             c0, t0 = len(child.chunks), w.now
             rec = {'k': k, 'op': 'aexpect', 't0': w.now}
             w.begin_op(k)
             w.note('op', (k, 'aexpect'))
             try:
-                if exact:
+                if pre is not None:
+                    # the awaitable was made earlier (a list of steps prepared up front); nothing happens before it is awaited
+                    coro = pre[0]
+                    r.w.probe('awaitable_prepared_before_an_earlier_operation')
+                elif exact:
                     coro = child.expect_exact(pl, timeout=to, searchwindowsize=sws, async_=True)
                 elif api == 'expect_list':
                     coro = child.expect_list(pl, timeout=to, searchwindowsize=sws, async_=True)
@@ -160,9 +194,19 @@ def run(scn, clauses=None):
             r.ops.append(rec)
             return rec
 
+        prep_plan = {}
+        for kk_, jj_ in (scn.get('prepare') or {}).items():
+            kk_, jj_ = int(kk_), int(jj_)
+            if not (0 <= jj_ < kk_ < len(scn['ops'])) or scn['ops'][kk_].get('op') != 'expect' or not scn['ops'][kk_].get('async'):
+                raise HarnessError('prepare: an awaited expect is prepared before an earlier operation')
+            prep_plan.setdefault(jj_, []).append(kk_)
+
         async def driver():
             for k, op in enumerate(scn['ops']):
                 state['k'] = k
+                for kk in prep_plan.get(k, []):
+                    if not child.closed:
+                        prepared[kk] = make_awaitable(scn['ops'][kk])
                 if child.closed and not (op['op'] == 'expect' and op.get('async')):
                     continue     # asyncio closed the object at EOF: blocking calls are out of scope
                 if op['op'] == 'expect' and op.get('async'):
@@ -204,6 +248,8 @@ def run(scn, clauses=None):
         except SimHang as e:
             state['stop'] = e
         finally:
+            for co_, _pl in prepared.values():
+                co_.close()          # prepared, never reached
             loop.detach_all()
             try:
                 loop.close()
@@ -222,7 +268,7 @@ def run(scn, clauses=None):
             to = c['timeout']
             if to == -1:
                 to = c['inst_timeout']
-            if to is not None and c['t1'] - c['t0'] > to * 1e6 + EPS_US and not out:
+            if to is not None and to >= 0 and c['t1'] - c['t0'] > to * 1e6 + EPS_US and not out:
                 out.append(Violation('C14.overrun', 'awaited call with timeout %r took %.3f virtual s' % (to, (c['t1'] - c['t0']) / 1e6),
                                      None, {'call': engine._call_brief(c)}))
             # ... and, like the blocking call, never report TIMEOUT before the time is up (parity with C05's clause)
